@@ -729,6 +729,14 @@ def skip_edges(ck: Check, rule: str) -> None:
                             tl_ok = False
                         if tl_ok and logic.implies(pc, want):
                             ev_ok = True
+                if a[0] == "b" and a[1].startswith("eq:") and f"[{space}]" in a[1]:
+                    T = a[1][3:].replace(f"[{space}]", "").strip("|")       # T == [space]
+                    try:
+                        tl_ok = _trap_list_origin(prog, fm, ast.Name(T, ast.Load()), e.cfgn, 0)[0] if T.isidentifier() else False
+                    except AnalysisError:
+                        tl_ok = False
+                    if tl_ok and logic.implies(pc, ("atom", a)):
+                        ev_ok = True
                 if a[0] == "b" and a[1] == f"T:node_is_minimal({e.nid})" and logic.implies(pc, ("atom", a)):
                     ev_ok = True
             ck.ob(rule, fm, e.stmt, ev_ok,
